@@ -60,10 +60,15 @@ package serializers
 //@ fieldset-of spdx/tools-golang/spdx/v2/v2_3.Package: PackageSPDXIdentifier
 //@ fieldset-of spdx/tools-golang/spdx/v2/v2_3.File: FileSPDXIdentifier
 
+//@ pred spdxFileOf(f *v2_3.File, n *sbom.Node) = f.FileSPDXIdentifier == n.Id && f.FileName == n.Name && f.LicenseConcluded == n.LicenseConcluded && f.LicenseComments == n.LicenseComments && f.FileComment == n.Comment && f.FileTypes == n.FileTypes
+
 //@ func buildFiles
-//@   props C03
+//@   props C03, C01
 //@   inline
 //@   requires [C03:pre] bom != nil && bom.NodeList != nil && sbom.validNL(bom.NodeList)
+//@   ensures [C01:spdx:file:scalars] result1 == nil ==> ((forall u int :: 0 <= u && u < len(bom.NodeList.Nodes) ==> !(bom.NodeList.Nodes[u].Id in fieldsetn(bom.NodeList.Nodes, Id, u))) ==> (forall f *v2_3.File, i int :: (f in elems(result0)) && 0 <= i && i < len(bom.NodeList.Nodes) && bom.NodeList.Nodes[i].Type != 0 && f.FileSPDXIdentifier == bom.NodeList.Nodes[i].Id ==> spdxFileOf(f, bom.NodeList.Nodes[i])))
+//@   invariant L0: [C01:inv] !(nil in elems(files)) && (forall f *v2_3.File :: (f in elems(files)) ==> fresh(f) && (f.FileSPDXIdentifier in fieldsetn(bom.NodeList.Nodes, Id, _i)))
+//@   invariant L0: [C01:inv] (forall u int :: 0 <= u && u < len(bom.NodeList.Nodes) ==> !(bom.NodeList.Nodes[u].Id in fieldsetn(bom.NodeList.Nodes, Id, u))) ==> (forall f *v2_3.File, i int :: (f in elems(files)) && 0 <= i && i < len(bom.NodeList.Nodes) && bom.NodeList.Nodes[i].Type != 0 && f.FileSPDXIdentifier == bom.NodeList.Nodes[i].Id ==> spdxFileOf(f, bom.NodeList.Nodes[i]))
 //@   ensures [C03:spdx:files:complete] result1 == nil ==> (forall i int :: 0 <= i && i < len(bom.NodeList.Nodes) && bom.NodeList.Nodes[i].Type != 0 ==> (bom.NodeList.Nodes[i].Id in fieldset(result0, FileSPDXIdentifier)))
 //@   invariant L0: [C03:inv] forall i int :: 0 <= i && i < _i && bom.NodeList.Nodes[i].Type != 0 ==> (bom.NodeList.Nodes[i].Id in fieldset(files, FileSPDXIdentifier))
 
